@@ -65,6 +65,14 @@ SEEDS = {
                  T(["L", "A", "+", "B", "+", "2M1I1M"]),
                  T(["P", "p", "A+,B+", "*"]), T(["P", "q", "B-,A-", "1M1D2M"]),
                  T(["P", "r", "A+,B+", "2M1I1M"])],
+    # lazily parsed fields with valid but non-canonical spellings on lines
+    # that are queued while the version is unknown (run at level 0 too, where
+    # such fields are kept as written)
+    "lazy": [T(["S", "A", "*"]), T(["S", "B", "*"]),
+             T(["L", "A", "+", "B", "+", "1M", "xx:J:{\"k\":[1,2]}",
+                "zz:B:c,1,2"]),
+             T(["C", "A", "+", "B", "-", "0", "1M", "jj:J:[1,2]"]),
+             T(["P", "p", "A+,B+", "1M", "bb:B:i,1"])],
     # the same identifier mentioned twice by one record (a path over a
     # self-link; a group visiting a segment twice)
     "P-repeat": [T(["S", "A", "*"]), T(["S", "B", "*"]),
@@ -278,9 +286,22 @@ def first_difference(a, b):
 # ---------------------------------------------------------------------------
 # judging one order
 # ---------------------------------------------------------------------------
+def split_entry(entry):
+  """'list@v0' -> ('list', 0): an entry point at another validation level"""
+  if "@v" in entry:
+    e, v = entry.split("@v")
+    return e, int(v)
+  return entry, 1
+
+
 def run_order(entry, lines, scratch):
+  entry, vl = split_entry(entry)
+  return _run_order(entry, lines, scratch, vl)
+
+
+def _run_order(entry, lines, scratch, vl=1):
   """Build one order; returns (outcome, observation or None, detail)."""
-  b = schedules.build(entry, lines, scratch=scratch)
+  b = schedules.build(entry, lines, vlevel=vl, scratch=scratch)
   if b.err is not None:
     return b.outcome, None, "{} at {}: {}".format(
         type(b.err).__name__, b.stage, str(b.err).split("\n")[0][:120])
@@ -354,9 +375,13 @@ def mk(doc_lines, order_lines, entry, clause, what, exp, obs):
   wit = {"doc": list(doc_lines), "order": list(order_lines), "entry": entry,
          "clause": clause, "what": what}
   sa = ("# identity order\n" +
-        schedules.standalone(entry, doc_lines, tail=tail_script()) +
+        schedules.standalone(split_entry(entry)[0], doc_lines,
+                             vlevel=split_entry(entry)[1],
+                             tail=tail_script()) +
         "\n# failing order\n" +
-        schedules.standalone(entry, order_lines, tail=tail_script()))
+        schedules.standalone(split_entry(entry)[0], order_lines,
+                             vlevel=split_entry(entry)[1],
+                             tail=tail_script()))
   return mkviolation(clause, key, wit, exp, obs, sa)
 
 
@@ -470,6 +495,11 @@ def run(ctx):
   with schedules.Scratch("c03_") as scratch:
     for doc_id, lines, fam in docs:
       ents = entries_seed if fam == "seed" else entries_small
+      if doc_id == "seed:P-cigar":
+        ents = tuple(ents) + ("list@v0", "inc@v0", "list@v3")
+      elif doc_id == "seed:lazy":
+        # (levels >= 1 write the canonical spelling instead: C01's business)
+        ents = ("list@v0", "inc@v0")
       for e in ents:
         for first in schedules.chunks_of(len(lines)):
           items.append((doc_id, tuple(lines), e, first, scratch))
@@ -512,7 +542,7 @@ def run(ctx):
   for doc_id, order, entry, clause, what, exp, obs_ in found:
     g = groups.setdefault((clause, what), {})
     cur = g.get(doc_id)
-    cand = (erank[entry], order, entry, exp, obs_)
+    cand = (erank.get(entry, 9), order, entry, exp, obs_)
     if cur is None or cand[:2] < cur[:2]:
       g[doc_id] = cand
   reported = 0
